@@ -40,9 +40,11 @@ class OTelMetrics(MetricProcessor):
         self.__cache = {}
         self.__lock = threading.Lock()
 
-    def __check_cache(self, namespace, name, type_name, from_default):
-        # the namespace is part of the name of a metric: 'orders' of namespace 'shop' is not 'orders' of 'billing'
-        cache_key = f'{namespace}_{name}_{type_name}'
+    def __check_cache(self, namespace, name, type_name, unit, help_string, from_default):
+        # the namespace is part of the name of a metric: 'orders' of namespace 'shop' is not 'orders' of 'billing'. So
+        # are the unit and the description for the instrument: a metric defined again with another unit is not to be
+        # recorded in the instrument made for the first one
+        cache_key = f'{namespace}_{name}_{type_name}_{unit}_{help_string}'
         if cache_key in self.__cache:
             return self.__cache[cache_key]
         default = from_default()
@@ -66,7 +68,7 @@ class OTelMetrics(MetricProcessor):
         try:
             with self.__lock:
                 counter: Counter
-                counter = self.__check_cache(namespace, name, 'counter',
+                counter = self.__check_cache(namespace, name, 'counter', unit, help_string,
                                              lambda: get_meter('deep').create_counter(f'{namespace}_{name}', unit,
                                                                                       help_string))
                 counter.add(value, labels)
@@ -90,7 +92,7 @@ class OTelMetrics(MetricProcessor):
         try:
             with self.__lock:
                 gauge: UpDownCounter
-                gauge = self.__check_cache(namespace, name, 'gauge',
+                gauge = self.__check_cache(namespace, name, 'gauge', unit, help_string,
                                            lambda: get_meter('deep').create_up_down_counter(f'{namespace}_{name}',
                                                                                             unit, help_string))
                 gauge.add(value, labels)
@@ -114,7 +116,7 @@ class OTelMetrics(MetricProcessor):
         try:
             with self.__lock:
                 histogram: Histogram
-                histogram = self.__check_cache(namespace, name, 'histogram',
+                histogram = self.__check_cache(namespace, name, 'histogram', unit, help_string,
                                                lambda: get_meter('deep').create_histogram(f'{namespace}_{name}', unit,
                                                                                           help_string))
                 histogram.record(value, labels)
@@ -138,7 +140,7 @@ class OTelMetrics(MetricProcessor):
         try:
             with self.__lock:
                 histogram: Histogram
-                histogram = self.__check_cache(namespace, name, 'summary',
+                histogram = self.__check_cache(namespace, name, 'summary', unit, help_string,
                                                lambda: get_meter('deep').create_histogram(f'{namespace}_{name}', unit,
                                                                                           help_string))
                 histogram.record(value, labels)
